@@ -90,7 +90,7 @@ def check(run):
     run.rule(r[0], "update-path functions read only policy-keyed registration / output state; no function-local static or cache", floor=20)
     run.rule(r[1], "next pointers, hash search, v-table pointer publication, static v-table pointers, slots/strides are (re)installed unconditionally by every update", floor=12)
     run.rule(r[2], "deferred ids are resolved exactly once per cell (guard flag tested before, set after)", floor=4)
-    run.rule(r[3], "registration objects register in the constructor and unregister unconditionally in the destructor; list operations keep the catalog linked", floor=30)
+    run.rule(r[3], "registration objects register in the constructor and unregister unconditionally in the destructor; list operations keep the catalog linked", floor=50)
     for x in ("x1", "x2", "x3", "x4", "x5"):
         run.rule("C07-" + x, "(decided elsewhere)", floor=0)
     for nd in ([True] if run.tier == "quick" else [True, False]):
